@@ -259,6 +259,12 @@ func simpleRoute(scheme string, routeConfig RouteConfig) (*SimpleRoute, error) {
 			Err:     err,
 		}
 	}
+	if fromURL.Hostname() == "" {
+		return nil, &ErrParsingConfig{
+			Message: "unable to url parse `from` parameter",
+			Err:     fmt.Errorf("no host in %q", routeConfig.From),
+		}
+	}
 
 	// url parse to url
 	toURL, err := urlParse(scheme, routeConfig.To)
@@ -266,6 +272,12 @@ func simpleRoute(scheme string, routeConfig RouteConfig) (*SimpleRoute, error) {
 		return nil, &ErrParsingConfig{
 			Message: "unable to url parse `to` parameter",
 			Err:     err,
+		}
+	}
+	if toURL.Hostname() == "" {
+		return nil, &ErrParsingConfig{
+			Message: "unable to url parse `to` parameter",
+			Err:     fmt.Errorf("no host in %q", routeConfig.To),
 		}
 	}
 
